@@ -76,7 +76,8 @@ def generate(rng, tier):
         for _ in range(depth):
             body = E.id_bytes(0x4301) + E.size_vint(len(body)) + body
         data = E.id_bytes(0x81) + E.size_vint(len(body)) + body
-        cases.append(Case("K %s %s - %s N" % (rs.s(), E.cfg_str(maxs="def", buffered=buffered), data.hex()), "deep", {"depth": depth}))
+        cases.append(Case("K %s %s - %s N" % (rs.s(), E.cfg_str(maxs="def", buffered=buffered), data.hex()), "deep",
+                          {"depth": depth, "impl_only": depth > 500}))
     return cases
 
 
@@ -99,6 +100,11 @@ def oracle(case, outs):
     f = case.lines[0].split(" ")
     n = 0 if f[4] == "-" else len(f[4]) // 2
     toks_ = out.split(" ") if out else []
+    if f[0] == "K":
+        want = deep_expected(bytes.fromhex(f[4]), ",b-," not in f[2], "b81," in f[2])
+        if out != want:
+            return "deep nesting: expected %s ... got %s   [%s]" % (want[:120], out[:200], case.lines[0][:300])
+        return None
     ok_items = sum(1 for t in toks_ if "@" in t and not t.startswith("E:") and not t.startswith("T:"))
     if ok_items > 2 * n + 16:
         return "more successful items (%d) than 2*len+16 (%d bytes): %s" % (ok_items, n, case.lines[0][:400])
@@ -142,3 +148,25 @@ def oracle(case, outs):
                 if not (t == "N" or t.startswith("T:")):
                     return "next() returned %s after it had returned None with the source exhausted: %s -> %s" % (t[:60], case.lines[0][:400], out[:300])
     return None
+
+
+def deep_expected(data, buffered, root_buffered):
+    """the items of 81{4301{4301{...}}} (known sizes), computed from the bytes: flat, or with the 4301 chain / the root as one Full item"""
+    offs = []
+    pos = 0
+    while pos < len(data):
+        h = E.header_at(data, pos)
+        offs.append((h[0], pos))
+        pos += h[1] + h[3]
+    if not buffered:
+        return " ".join(["s%x@%d" % (i, o) for i, o in offs] + ["e%x@%d" % (i, o) for i, o in reversed(offs)] + ["N"])
+    def full(k):
+        s = ""
+        for i, o in reversed(offs[k:]):
+            s = "m%x(%s)" % (i, s)
+        return s
+    if root_buffered:
+        return "%s@0 N" % full(0)
+    if len(offs) == 1:
+        return "s81@0 e81@0 N"
+    return "s81@0 %s@%d e81@0 N" % (full(1), offs[1][1])
